@@ -31,13 +31,16 @@ TDie   == /\ Ev("die")
 \* INSIDE the write(2) of a multi-record batch can leave its first records without the rest, and recovery applies
 \* them.  This action describes exactly that outcome; it is enabled only in the configuration that decides whether a
 \* rejected trace is an instance of the finding, never in the configuration that decides conformance.
+KeyRank(k) == CHOOSE i \in 1..9 : <<"k1", "k2", "k3", "k4", "k5", "k6", "k7", "k8", "k9">>[i] = k
+InKeyOrder(b) == SortSeq(b, LAMBDA x, y : KeyRank(x.k) < KeyRank(y.k))
 TDieTornPartial ==
           /\ KF_TornBatch /\ Ev("die") /\ "torn" \in DOMAIN Trace[l] /\ Trace[l].torn
           /\ dUp
           /\ \E n \in (IF sync = "imm" THEN dAcked ELSE 0)..(Len(dIssued) - 1) :      \* operations 1..n survive whole,
                /\ Len(dIssued[n + 1]) >= 2                                            \* the next one is a batch
                /\ \E j \in 1..(Len(dIssued[n + 1]) - 1) :                             \* of which only the first j records survive,
-                    dIssued' = Append(SubSeq(dIssued, 1, n), SubSeq(dIssued[n + 1], 1, j))
+                    \E b \in {dIssued[n + 1], InKeyOrder(dIssued[n + 1])} :             \* in the order they are logged: as issued
+                      dIssued' = Append(SubSeq(dIssued, 1, n), SubSeq(b, 1, j))         \* (ApplyBatch) or by key (a transaction's buffer)
                /\ dAcked' = n + 1                                                     \* and nothing behind it
           /\ dUp' = FALSE /\ UNCHANGED sync
 TClose == Ev("close") /\ DClose /\ UNCHANGED sync
